@@ -1,16 +1,369 @@
-/-! Trace oracles: the properties stated on the *implementation's* observation stream
-    (independent of the model). Filled in per property; `feed` returns the verdict for one step. -/
+/-! Trace oracles: the supervisor properties stated on the *implementation's* observation stream
+    (what the fake commander and the hooks saw), independent of the model. `feed` consumes one
+    step (`op`, canonical result line) and returns the failures of that step as
+    `bad:<property ids>:<details>`; `finish` judges the final state of a scenario.
+
+    Every failure detail starts with `Cxx:<kind>` — the kind is what known findings are matched on. -/
 namespace PC.Spec.Trace
 
+structure PDecl where
+  name : String
+  policy : String
+  max : Nat
+  flags : String
+  onSignal : String
+  deps : List (String × String)      -- (dependency, condition letter)
+deriving Repr, Inhabited
+
 structure Oracle where
+  decls : List PDecl := []
+  ordered : Bool := false
+  -- per name facts (sets of names / assoc lists)
+  status : List (String × String) := []
+  seenSeq : List (String × Nat) := []        -- highest proc thread sequence number seen
+  fresh : List String := []                  -- a new instance began and has not changed the status yet
+  found : List (String × String) := []       -- (dependent, dependency) looked up and found (current instance)
+  launchesInst : List (String × Nat) := []
+  relaunches : List (String × Nat) := []
+  lastCode : List (String × Int) := []
+  natural : List String := []                -- last command exit was not caused by a stop signal
+  everDoneOk : List String := []
+  doneEver : List String := []
+  probeOkEver : List String := []
+  logReadyEver : List String := []
+  startedEver : List String := []
+  terminatingEver : List String := []
+  readySince : List String := []
+  stopReq : List String := []                -- a stop of the name (or a shutdown) has been served
+  everStopped : List String := []
+  launchedEver : List String := []
+  fatalPending : List String := []           -- fatal readiness failure delivered, relaunch expected
+  runAtShutdown : List String := []
+  shutdownReturned : Bool := false
+  triggers : List (String × Int × Bool) := []   -- (process, code, genuine)
+  calls : List (String × List String) := []     -- api id ↦ op words
+  prevCmd : List String := []
+  prevRun : List String := []
+  lastTh : String := ""
+  lastSt : String := ""
+  lastCmd : List String := []
+  quiescent : Bool := false
+  ovNames : List String := []        -- names that had two unfinished instances at the same time
+  winNames : List String := []       -- names touched inside another thread's check-then-act window
   steps : Nat := 0
 deriving Repr, Inhabited
 
-def declare (o : Oracle) (_name _pol _mx _fl _deps : String) : Oracle := o
+/-! small helpers -/
+def words (s : String) : List String := (s.splitOn " ").filter (· ≠ "")
+def lookupD (l : List (String × α)) (k : String) (d : α) : α := ((l.find? (·.1 = k)).map (·.2)).getD d
+def setKV (l : List (String × α)) (k : String) (v : α) : List (String × α) := (l.filter (·.1 ≠ k)) ++ [(k, v)]
+def addS (l : List String) (k : String) : List String := if l.contains k then l else l ++ [k]
+def delS (l : List String) (k : String) : List String := l.filter (· ≠ k)
 
-def feed (o : Oracle) (_impl : String) (_obs : List String) : Oracle × String :=
-  ({ o with steps := o.steps + 1 }, "ok")
+def field (res key : String) : String :=
+  match res.splitOn (key ++ "=") with
+  | _ :: rest :: _ => (rest.splitOn " ").headD ""
+  | _ => ""
 
-def finish (o : Oracle) (_impl : String) : Oracle × String := (o, "ok")
+/-- the `obs=` field may contain spaces: it runs up to ` st=` -/
+def obsField (res : String) : List String :=
+  match res.splitOn " obs=" with
+  | [_, rest] => match rest.splitOn " st=" with
+    | o :: _ => (o.splitOn ";").filter (· ≠ "")
+    | [] => []
+  | _ => []
+
+def csv (s : String) : List String := (s.splitOn ",").filter (· ≠ "")
+
+/-- `st=` entries: name ↦ (status, exit, restarts, health) -/
+def parseSt (s : String) : List (String × (String × Int × Nat × String)) :=
+  (csv s).filterMap fun e => match e.splitOn ":" with
+    | [n, v] => match v.splitOn "/" with
+      | [st, ex, rs, h] => some (n, (st, ex.toInt?.getD 0, rs.toNat?.getD 0, h))
+      | _ => none
+    | _ => none
+
+def decl (o : Oracle) (n : String) : PDecl := (o.decls.find? (·.name = n)).getD { name := n, policy := "no", max := 0, flags := "", onSignal := "0", deps := [] }
+
+def declare (o : Oracle) (name pol mx fl onsig deps : String) : Oracle :=
+  let ds := ((deps.splitOn ",").filter (· ≠ "-")).filterMap fun d => match d.splitOn ":" with
+    | [k, c] => some (k, c) | _ => none
+  let d : PDecl := { name, policy := pol, max := mx.toNat?.getD 0, flags := fl, onSignal := onsig, deps := ds }
+  { o with decls := o.decls ++ [d], status := o.status ++ [(name, if fl.contains 'x' then "Disabled" else "Pending")] }
+
+def isTerminal (s : String) : Bool := s == "Completed" || s == "Skipped" || s == "Error"
+def isRunningSt (s : String) : Bool := s == "Running" || s == "Launching" || s == "Launched"
+
+/-- C09: the legal life-cycle edges (without an explicit new start). -/
+def legalEdge (a b : String) : Bool :=
+  match a with
+  | "Pending" => b == "Running" || b == "Launching" || b == "Skipped" || b == "Terminating" || b == "Error"
+  | "Running" => b == "Restarting" || b == "Terminating" || b == "Completed" || b == "Error" || b == "Launched"
+  | "Launching" => b == "Launched" || b == "Restarting" || b == "Terminating" || b == "Completed" || b == "Error"
+  | "Launched" => b == "Restarting" || b == "Terminating" || b == "Completed"
+  | "Restarting" => b == "Running" || b == "Launching" || b == "Completed" || b == "Terminating"
+  | "Terminating" => b == "Completed" || b == "Restarting" || b == "Terminating" || b == "Skipped" || b == "Error"
+  | _ => false
+
+/-- edges allowed for the first status write of a freshly started instance -/
+def freshEdge (b : String) : Bool :=
+  b == "Running" || b == "Launching" || b == "Error" || b == "Skipped" || b == "Terminating" || b == "Pending"
+
+/-- C01: is the declared condition of dependency `k` met according to what was observed? -/
+def gateMet (o : Oracle) (k c : String) : Bool :=
+  match c with
+  | "c" => o.doneEver.contains k
+  | "s" => o.everDoneOk.contains k
+  | "h" => o.probeOkEver.contains k || o.logReadyEver.contains k
+  | "l" => o.logReadyEver.contains k
+  -- process_started: the dependency started, or it has ended / was stopped and is therefore no
+  -- longer scheduled to run (DESIGN.md 6.6)
+  | _ => o.startedEver.contains k || o.doneEver.contains k || o.terminatingEver.contains k || o.everStopped.contains k
+
+/-- the process whose thread ran in this step (`s run proc:X#n`) -/
+def actor (op : List String) : String :=
+  match op with
+  | ["s", "run", key] => match key.splitOn ":" with
+    | [_, rest] => (rest.splitOn "#").headD ""
+    | _ => ""
+  | _ => ""
+
+def bump (l : List (String × Nat)) (k : String) : List (String × Nat) := setKV l k (lookupD l k 0 + 1)
+
+/-- process one observation; returns the updated oracle and the failures it raises -/
+def onObs (o : Oracle) (op : List String) (cmdAfter : List String)
+    (st : List (String × (String × Int × Nat × String))) (ob : String) : Oracle × List String :=
+  match words ob with
+  | ["dep", x, k, "found"] => ({ o with found := o.found ++ [(x, k)] }, [])
+  | ["dep", x, k, "none"] => ({ o with found := o.found.filter (· ≠ (x, k)) }, [])
+  | ["started", x] => ({ o with startedEver := addS o.startedEver x }, [])
+  | ["logready", x] => ({ o with logReadyEver := addS o.logReadyEver x, readySince := addS o.readySince x }, [])
+  | ["state", x, s] =>
+    let prev := lookupD o.status x "Pending"
+    -- the first status write of a freshly started instance (made by its own goroutine)
+    let me := match op with | ["s", "run", key] => key | _ => ""
+    let isFresh := o.fresh.contains me && me.startsWith ("proc:" ++ x ++ "#")
+    let ok := if isFresh then freshEdge s || legalEdge prev s else legalEdge prev s
+    let fails := if ok then [] else [s!"C09:illegal-transition {x} {prev}->{s}"]
+    let fails := if s == "Skipped" && lookupD o.launchesInst x 0 > 0 then fails ++ [s!"C05:skipped-after-launch {x}"] else fails
+    let o := { o with status := setKV o.status x s, fresh := if isFresh then delS o.fresh me else o.fresh }
+    let o := if s == "Restarting" || s == "Launching" || s == "Terminating" then { o with readySince := delS o.readySince x } else o
+    let o := if s == "Terminating" then { o with terminatingEver := addS o.terminatingEver x } else o
+    (o, fails)
+  | ["done", x] =>
+    let ex := (lookupD st x ("", 0, 0, "")).2.1
+    let o := { o with doneEver := addS o.doneEver x }
+    (if ex = 0 then { o with everDoneOk := addS o.everDoneOk x } else o, [])
+  | ["launch", x] =>
+    let d := decl o x
+    -- C01: every dependency that was found registered must have met its condition
+    let gate := d.deps.filterMap fun (k, c) =>
+      if o.found.contains (x, k) && !gateMet o k c then some s!"C01:launch-before-condition {x} needs {k}:{c}" else none
+    -- C02/C03/C08: no launch after a served stop / shutdown without a new start
+    let afterStop := if o.stopReq.contains x then
+        [s!"C02:launch-after-stop {x}", s!"C08:launch-after-stop {x}"] ++
+        (if o.shutdownReturned then [s!"C03:launch-after-shutdown {x}"] else []) else []
+    let isRe := lookupD o.launchesInst x 0 > 0
+    let code := lookupD o.lastCode x 0
+    let pol := if !isRe then [] else
+      if d.policy == "always" || (d.policy == "on_failure" && code ≠ 0) then [] else [s!"C02:relaunch-against-policy {x} {d.policy} code={code}"]
+    let rel := if isRe then lookupD o.relaunches x 0 + 1 else lookupD o.relaunches x 0
+    let mx := if isRe && d.max > 0 && rel > d.max then [s!"C02:max-restarts-exceeded {x} {rel}>{d.max}"] else []
+    let o := { o with launchesInst := bump o.launchesInst x, relaunches := setKV o.relaunches x rel,
+                      launchedEver := addS o.launchedEver x, fatalPending := delS o.fatalPending x }
+    (o, gate ++ afterStop ++ pol ++ mx)
+  | ["stop", x, sig] =>
+    let d := decl o x
+    -- C12: with ordered shutdown, no dependent that was running at shutdown begin is still alive
+    let c12 := if o.ordered && !o.runAtShutdown.isEmpty then
+        o.decls.filterMap fun p =>
+          if p.name ≠ x && p.deps.any (·.1 = x) && o.runAtShutdown.contains p.name && cmdAfter.contains p.name
+          then some s!"C12:stopped-before-dependent {x} while {p.name} alive" else none
+      else []
+    -- reaction of the fake command: it dies unless it ignores the signal (SIGKILL always kills)
+    let wasAlive := o.prevCmd.contains x
+    let dies := wasAlive && (sig == "9" || d.onSignal != "ign")
+    let code : Int := if sig == "9" then -1 else d.onSignal.toInt?.getD 0
+    let o := if dies then { o with lastCode := setKV o.lastCode x code, natural := delS o.natural x } else o
+    let o := if actor op == "" then o else o
+    (o, c12)
+  | ["sdorder", l] => ({ o with runAtShutdown := csv l }, [])
+  | ["sdorder"] => ({ o with runAtShutdown := [] }, [])
+  | ["sdreturned"] =>
+    let alive := if cmdAfter.isEmpty then [] else [s!"C03:alive-after-shutdown {",".intercalate cmdAfter}"]
+    let running := st.filterMap fun (n, (s, _)) => if isRunningSt s then some s!"C03:reported-running-after-shutdown {n} {s}" else none
+    ({ o with shutdownReturned := true, stopReq := o.decls.map (·.name),
+              everStopped := o.decls.foldl (fun l d => addS l d.name) o.everStopped }, alive ++ running)
+  | ["projexit", c] =>
+    let x := actor op
+    let skipped := lookupD o.status x "" == "Skipped"
+    let genuine := skipped || o.natural.contains x || !(o.launchedEver.contains x)
+    ({ o with triggers := o.triggers ++ [(x, c.toInt?.getD 0, genuine)] }, [])
+  | ["runreturned", c] =>
+    let c := c.toInt?.getD 0
+    let alive := if cmdAfter.isEmpty then [] else [s!"C04:run-returned-with-live-command {",".intercalate cmdAfter}"]
+    let gen := o.triggers.filter (·.2.2)
+    let codeFail :=
+      if o.triggers.isEmpty then (if c = 0 then [] else [s!"C04:nonzero-without-trigger {c}"])
+      else if gen.isEmpty then []     -- only victims of an externally requested shutdown: any of their codes
+      else if gen.any (·.2.1 = c) then [] else [s!"C04:exit-code-of-victim {c}"]
+    (o, alive ++ codeFail)
+  | ["ret", id, r] =>
+    match lookupD o.calls id [] with
+    | ["stop", x] =>
+      let known := o.decls.any (·.name = x)
+      let f := if !known && r != "no-such" then [s!"C08:unknown-name-not-rejected stop {x} {r}"] else []
+      (if r == "ok" then { o with stopReq := addS o.stopReq x, everStopped := addS o.everStopped x } else o, f)
+    | ["start", x] =>
+      let known := o.decls.any (·.name = x)
+      let f := if !known && r != "no-such" then [s!"C08:unknown-name-not-rejected start {x} {r}"] else []
+      (if r == "ok" then { o with stopReq := delS o.stopReq x } else o, f)
+    | ["restart", x] =>
+      let known := o.decls.any (·.name = x)
+      let f := if !known && r != "no-such" then [s!"C08:unknown-name-not-rejected restart {x} {r}"] else []
+      (if r == "ok" then { o with stopReq := delS o.stopReq x, everStopped := addS o.everStopped x } else o, f)
+    | _ => (o, if r == "panic" then [s!"C20:panic-in-api-call {id}"] else [])
+  | _ => (o, [])
+
+def idsOf (fails : List String) : List String :=
+  fails.foldl (fun acc f => let id := (f.splitOn ":").headD ""; if acc.contains id then acc else acc ++ [id]) []
+
+def verdictOf (fails : List String) : String :=
+  if fails.isEmpty then "ok" else "bad:" ++ ",".intercalate (idsOf fails) ++ ":" ++ "; ".intercalate fails
+
+def dupes (l : List String) : List String :=
+  (l.foldl (fun (acc : List String × List String) x =>
+    if acc.1.contains x then (acc.1, addS acc.2 x) else (acc.1 ++ [x], acc.2)) ([], [])).2
+
+def parseTh (th : String) : List (String × String) :=
+  (csv th).filterMap fun t => match t.splitOn "@" with
+    | [k, l] => some (k, l.replace "*" "")
+    | _ => none
+
+def procNameOfKey (k : String) : Option String :=
+  if k.startsWith "proc:" then some (((k.drop 5).toString.splitOn "#").headD "") else none
+
+def procWinLabels : List String := ["run:enter", "run:checked", "run:exited", "backoff:elapsed", "proc:ran", "proc:done-added", "proc:skipped", "dep:lookup"]
+def stopWinLabels : List String := ["stop:enter", "stop:notrunning", "stop:checked", "stop:marked", "start:checked", "restart:stopped", "restart:slept", "shutdown:enter", "shutdown:prepared"]
+
+def obsMentions (obs : List String) (x : String) : Bool :=
+  obs.any fun ob => match words ob with
+    | [k, n] => n == x && (k == "launch" || k == "done" || k == "started")
+    | [k, n, _] => n == x && (k == "state" || k == "stop" || k == "exit")
+    | _ => false
+
+/-- root-cause tags: `[overlap]` (two instances of the name coexisted) and `[window]` (another
+    thread acted on the name while a thread sat inside a check-then-act window). -/
+def tagFail (o : Oracle) (f : String) : String :=
+  let ws := words f
+  let raw := ws.getD 1 ""
+  let names : List String :=
+    match procNameOfKey raw with
+    | some x => [x]
+    | none => if raw.startsWith "api:" || raw.startsWith "stopper:" then o.decls.map (·.name) else csv raw
+  let t1 := if names.any (o.ovNames.contains ·) then " [overlap]" else ""
+  let t2 := if names.any (o.winNames.contains ·) then " [window]" else ""
+  let t3 := if names.any (fun n => lookupD o.seenSeq n 0 ≥ 2) then " [restarted]" else ""
+  f ++ t1 ++ t2 ++ t3
+
+def feed (o : Oracle) (op : List String) (impl : String) : Oracle × String :=
+  if impl.startsWith "DIVERGED" || impl == "DEAD" then
+    (o, if impl.startsWith "DIVERGED" then "bad:C20:C20:step-did-not-park (a call blocked outside every hook point)" else "ok")
+  else
+  let obs := obsField impl
+  let st := parseSt (field impl "st")
+  let cmd := csv (field impl "cmd")
+  let run := csv (field impl "run")
+  let th := field impl "th"
+  -- new proc instances (thread keys `proc:X#n` with a new n)
+  let o := (csv th).foldl (fun o t =>
+    let key := (t.splitOn "@").headD ""
+    match key.splitOn ":" with
+    | ["proc", rest] => match rest.splitOn "#" with
+      | [x, n] =>
+        let n := n.toNat?.getD 0
+        if n > lookupD o.seenSeq x 0 then
+          { o with seenSeq := setKV o.seenSeq x n, fresh := addS o.fresh key,
+                   found := o.found.filter (·.1 ≠ x), launchesInst := setKV o.launchesInst x 0 }
+        else o
+      | _ => o
+    | _ => o) o
+  -- the external event / request of this step
+  let o := match op with
+    | ["s", "exit", x, c] =>
+      if o.prevCmd.contains x then { o with lastCode := setKV o.lastCode x (c.toInt?.getD 0), natural := addS o.natural x } else o
+    | ["s", "probe", x, "ok"] =>
+      if o.prevCmd.contains x then { o with probeOkEver := addS o.probeOkEver x, readySince := addS o.readySince x } else o
+    | "s" :: "call" :: id :: rest => { o with calls := setKV o.calls id rest }
+    | ["s", "run", key] =>
+      if key.startsWith "probe:" && obs.any (fun (ob : String) => ob.startsWith "stop ") then
+        match obs.find? (fun (ob : String) => ob.startsWith "stop ") with
+        | some s => { o with fatalPending := addS o.fatalPending ((words s).getD 1 "") }
+        | none => o
+      else o
+    | _ => o
+  -- root-cause bookkeeping
+  let cur := parseTh th
+  let prev := parseTh o.lastTh
+  let actorKey := match op with | ["s", "run", key] => key | _ => ""
+  let procNames := cur.filterMap fun (k, _) => procNameOfKey k
+  let o := { o with ovNames := (dupes procNames).foldl addS o.ovNames }
+  let winA := prev.filterMap fun (k, l) => match procNameOfKey k with
+    | some x => if k ≠ actorKey && procWinLabels.contains l && obsMentions obs x then some x else none
+    | none => none
+  let winB := match procNameOfKey actorKey with
+    | some x => if obsMentions obs x && prev.any (fun (k, l) => k ≠ actorKey && stopWinLabels.contains l) then [x] else []
+    | none => []
+  let o := { o with winNames := (winA ++ winB).foldl addS o.winNames }
+  let (o, fails) := obs.foldl (fun (acc : Oracle × List String) ob =>
+    let (o', f) := onObs acc.1 op cmd st ob
+    (o', acc.2 ++ f)) (o, [])
+  -- state checks on the snapshot after the step
+  let fails := fails ++ (dupes cmd).map fun x => s!"C08:two-live-commands {x}"
+  let fails := fails ++ st.filterMap fun (n, (s, _)) =>
+    if isTerminal s && cmd.contains n then some s!"C09:terminal-while-alive {n} {s}" else none
+  let fails := fails ++ st.filterMap fun (n, (_, _, _, h)) =>
+    if h == "R" && !(o.readySince.contains n) then some s!"C10:ready-without-success {n}" else none
+  let quiescent := !(th.contains '*') && cmd.isEmpty
+  let o := { o with prevCmd := cmd, prevRun := run, lastTh := th, lastSt := field impl "st", lastCmd := cmd,
+                    quiescent := quiescent, steps := o.steps + 1 }
+  (o, verdictOf (fails.map (tagFail o)))
+
+/-- Judgement of the final state (`end quiescent`: nothing enabled, nothing alive, no timer). -/
+def finish (o : Oracle) (reason : String) : Oracle × String :=
+  if reason != "quiescent" || !o.quiescent then (o, "ok") else
+  let st := parseSt o.lastSt
+  let ths := csv o.lastTh
+  -- threads that can never run again
+  let blocked := ths.filterMap fun t => match t.splitOn "@" with
+    | [key, label] =>
+      if key.startsWith "proc:" && label.startsWith "wait:" then
+        some s!"C04:waits-forever {key}@{label}; C05:dependent-neither-launched-nor-skipped {key}@{label}"
+      else if key.startsWith "api:0#" then none
+      else if key.startsWith "api:" then some s!"C20:call-blocked-forever {key}@{label}; C03:shutdown-or-call-never-returns {key}@{label}"
+      else if key.startsWith "proc:" then some s!"C04:process-thread-blocked-forever {key}@{label}"
+      else none
+    | _ => none
+  let runStuck := if ths.any (·.startsWith "api:0#") then
+      [s!"C04:run-never-returns {(ths.filter (·.startsWith "api:0#")).headD ""}"] else []
+  let blockedProcs := ths.filterMap fun t => if t.startsWith "proc:" then some (((t.splitOn "#").headD "").drop 5).toString else none
+  let rest := st.filterMap fun (n, (s, ex, rs, _)) =>
+    let d := decl o n
+    let transient := (s == "Pending" || s == "Launching" || s == "Restarting" || s == "Terminating") && !(blockedProcs.contains n)
+        && !(d.flags.contains 'x')
+    let f1 := if transient && (o.seenSeq.any (·.1 = n)) then [s!"C09:transient-at-rest {n} {s}"] else []
+    let f2 := if s == "Completed" && o.launchedEver.contains n && ex ≠ lookupD o.lastCode n 0 then
+        [s!"C09:exit-code-mismatch {n} reported={ex} last-command={lookupD o.lastCode n 0}"] else []
+    let f3 := if s == "Skipped" && ex = 0 then [s!"C09:skipped-exit0 {n}", s!"C05:skipped-exit0 {n}"] else []
+    let f4 := if s == "Error" && ex = 0 then [s!"C09:error-exit0 {n}"] else []
+    let f5 := if !(o.everStopped.contains n) && !(o.shutdownReturned) && rs ≠ lookupD o.relaunches n 0 && !(o.runAtShutdown.contains n) then
+        [s!"C02:restart-count-mismatch {n} reported={rs} relaunches={lookupD o.relaunches n 0}"] else []
+    let code := lookupD o.lastCode n 0
+    let wanted := (d.policy == "always" || (d.policy == "on_failure" && code ≠ 0)) && (d.max == 0 || rs < d.max)
+    let f6 := if o.fatalPending.contains n && wanted && !(o.everStopped.contains n)
+        && !(o.runAtShutdown.contains n) && isTerminal s then [s!"C10:no-restart-after-fatal {n} {d.policy}"] else []
+    some (f1 ++ f2 ++ f3 ++ f4 ++ f5 ++ f6)
+  let fails := (blocked.map fun b => b.splitOn "; ").flatten ++ runStuck ++ rest.flatten
+  (o, verdictOf (fails.map (tagFail o)))
 
 end PC.Spec.Trace
